@@ -6,7 +6,6 @@ import (
 	"encoding/binary"
 	"encoding/json"
 	"fmt"
-	"io"
 	"log"
 	"sync"
 	"testing"
@@ -23,8 +22,11 @@ import (
 
 const prop = "C13"
 
+// drops counts the messages the library reports as dropped (queue overflow).
+var drops = &netkit.DropLog{}
+
 func TestMain(m *testing.M) {
-	log.SetOutput(io.Discard)
+	log.SetOutput(drops)
 	vt.Main(m)
 }
 
@@ -502,6 +504,7 @@ func ltick() int64 { lmu.Lock(); defer lmu.Unlock(); lclock++; return lclock }
 func checkConc(c ConcCase) error {
 	vt.Journal(prop, "TestConcurrent", "C13:process-died", c)
 	defer vt.JournalDone(prop, "TestConcurrent")
+	dropsBefore := drops.Count()
 	env, err := netkit.StartServer(bus.Yes{})
 	if err != nil {
 		return vt.Violationf("C13:setup", "server: %v", err)
@@ -703,6 +706,16 @@ func checkConc(c ConcCase) error {
 			last = v
 			got[v] = true
 		}
+		if r.lost != 0 && drops.Count() > dropsBefore {
+			// the library reported that it dropped messages of a consumer whose
+			// 100-message queue was full: the listed load-shedding finding, which
+			// TestSlowSubscriber pins down; not judged as a lost event here
+			if vt.Known("C13:event-queue-overflow") {
+				vt.Excluded("C13:event-queue-overflow")
+				continue
+			}
+			return vt.Violationf("C13:event-queue-overflow", "subscriber on %s lost event %d and the library logged %d dropped messages (consumer blocked): a subscriber that falls 100 events behind loses events", r.place, r.lost, drops.Count()-dropsBefore)
+		}
 		if r.lost != 0 {
 			return vt.Violationf("C13:concurrent:lost-event", "subscriber on %s (acknowledged at %d) did not receive event %d, emitted before its pre-cancel barrier at %d, within %v; it received %v", r.place, r.ack, r.lost, r.drain, bound, r.received)
 		}
@@ -723,5 +736,5 @@ func TestEvents(t *testing.T)     { vt.Run(t, prop, "TestEvents", genCase, check
 func TestConcurrent(t *testing.T) { vt.Run(t, prop, "TestConcurrent", genConc, checkConc) }
 
 func TestReplay(t *testing.T) {
-	vt.Replay(t, map[string]func(json.RawMessage) error{"TestEvents": vt.Decode(checkCase), "TestConcurrent": vt.Decode(checkConc)})
+	vt.Replay(t, map[string]func(json.RawMessage) error{"TestEvents": vt.Decode(checkCase), "TestConcurrent": vt.Decode(checkConc), "TestSlowSubscriber": vt.Decode(checkSlow)})
 }
